@@ -1,9 +1,11 @@
 """C11 — compiled kernels never access memory outside their arrays.
 
 Oracle: execution under numba's bounds-checking semantics.  Every worker of this check runs with
-NUMBA_BOUNDSCHECK=1 (set before numba is imported), so every compiled kernel - nested and parallel ones included -
-raises IndexError (surfacing as IndexError/SystemError) on an out-of-range index; negative indices >= -len are legal
-wrap-around exactly as in numpy, so TSC's intended negative-index wrap is not flagged.
+NUMBA_BOUNDSCHECK=1 (set before numba is imported), so every compiled kernel raises IndexError (surfacing as
+IndexError/SystemError) on an out-of-range index; negative indices >= -len are legal wrap-around exactly as in numpy, so
+TSC's intended negative-index wrap is not flagged.  Inside prange bodies that error only propagates from the calling
+thread's chunk (found with a seeded change, DESIGN 10.5), so six further shards run the parallel kernels as their Python
+source (py_func twins), where every iteration executes in the calling thread.
 
 Inputs: (a) the precondition-satisfying strategies of the other property modules (decoders, pack9, cumsum, partition,
 mass assignment, catalog zipper, mode binning, HOD passes, power-spectrum pipeline) re-run under the bounds checker -
@@ -28,7 +30,8 @@ RULE = (
     'position on a domain boundary, all modes beyond the last edge, pimax below the largest kz, xd at an end); distinct = (group, descriptor) hash.'
 )
 ASSUMPTIONS = [
-    "numba's bounds checker (NUMBA_BOUNDSCHECK=1) flags every out-of-range array index in compiled code, including inside prange bodies",
+    "numba's bounds checker (NUMBA_BOUNDSCHECK=1) flags every out-of-range array index in compiled code that runs in the calling thread; inside a prange body the error propagates only from the calling thread's chunk (measured on numba 0.67 with the OpenMP and workqueue layers: a worker thread's IndexError is dropped and the kernel returns a truncated result)",
+    'therefore 6 of the 18 shards run every parallel=True kernel as its Python source (dispatcher.py_func: prange = range, all iterations in the calling thread, inner kernels still compiled and bounds-checked); there any out-of-range index raises IndexError; non-index exceptions of the Python twins are not judged',
     'raw-pointer writes (blosc.decompress_ptr) are outside the bounds checker; C14 covers that call with a canary',
     'TSC grids: >=3 cells per axis (2 cells only with offset <= h/2); NFW satellite path (unseeded RNG, documented as unoptimized) is not exercised',
 ]
@@ -46,18 +49,52 @@ REUSED = {
 }
 EXTRA = ['bin_kppi', 'bin_kmu', 'interp', 'mesh', 'tsc_cfg', 'cic_flat', 'concat', 'sphere']
 GROUPS = list(REUSED) + ['extra', 'extra', 'extra']
+# "Twin" shards.  Observed on this numba (0.67, OpenMP and workqueue layers alike): an exception raised inside a prange body - which is
+# how a bounds error surfaces - propagates only when it happens in the chunk the calling thread executes; in a worker thread's chunk it
+# is dropped and the kernel returns a truncated result.  So for the kernels whose indexing depends on the thread block
+# (HOD passes, partition, TSC stripes, mode binning, mesh kernels, concatenate, sphere points) the compiled run under the bounds
+# checker sees only part of the iteration space.  The twin shards run the *same source* of every parallel=True kernel as plain Python
+# (dispatcher.py_func, prange = range, every iteration in the calling thread; inner non-parallel kernels stay compiled and
+# bounds-checked), where any out-of-range index raises IndexError.
+TWIN_GROUPS = ['hod', 'partition', 'massassign', 'binning', 'power', 'extra']
+SHARD_PLAN = [(g, False) for g in GROUPS] + [(g, True) for g in TWIN_GROUPS]
 BOUNDS_MARKERS = ('IndexError', 'SystemError', 'out-of-bounds', 'canary', 'process-killed')
 
 
 def config(tier):
     if tier == 'quick':
-        return dict(shards=12, examples=70, numba_threads=4, boundscheck=True, soft_s=200, shrink_calls=40, shrink_max_sigs=2)
-    return dict(shards=12, examples=1200, numba_threads=4, boundscheck=True, soft_s=1500, shrink_calls=150)
+        return dict(shards=18, examples=70, numba_threads=4, boundscheck=True, soft_s=200, shrink_calls=40, shrink_max_sigs=2)
+    return dict(shards=18, examples=1200, numba_threads=4, boundscheck=True, soft_s=1500, shrink_calls=150)
+
+
+def _plan_for_shard():
+    s = int(os.environ.get('VERIF_SHARD', '0'))
+    return SHARD_PLAN[s % len(SHARD_PLAN)]
 
 
 def _group_for_shard():
-    s = int(os.environ.get('VERIF_SHARD', '0'))
-    return GROUPS[s % len(GROUPS)]
+    return _plan_for_shard()[0]
+
+
+_twins = {'on': False, 'patched': []}
+_PAR_MODULES = ['abacusnbody.util', 'abacusnbody.data.bitpacked', 'abacusnbody.data.pack9', 'abacusnbody.data.compaso_halo_catalog', 'abacusnbody.analysis.tsc',
+                'abacusnbody.analysis.cic', 'abacusnbody.analysis.power_spectrum', 'abacusnbody.hod.GRAND_HOD', 'abacusnbody.hod.abacus_hod']
+
+
+def _enable_twins():
+    """Replace every parallel=True dispatcher that is a module attribute by its Python source function (once per process)."""
+    if _twins['on']:
+        return
+    for mn in _PAR_MODULES:
+        try:
+            mod = importlib.import_module(mn)
+        except Exception:
+            continue
+        for name, obj in list(vars(mod).items()):
+            if hasattr(obj, 'py_func') and hasattr(obj, 'targetoptions') and obj.targetoptions.get('parallel'):
+                setattr(mod, name, obj.py_func)
+                _twins['patched'].append('%s.%s' % (mn.split('.')[-1], name))
+    _twins['on'] = True
 
 
 _mods = {}
@@ -156,10 +193,24 @@ def _extra(draw):
     return d
 
 
-EXHAUSTIVE_NOTE = 'bin_kmu/bin_kppi for every mesh size 1..9 x 5 edge placements x Fourier/configuration space; TSC/CIC with particles on every face/edge/corner combination of 8 anisotropic grids; cumsum for every length 0..2 x flag combination x dtype pairing; linear_interp boundary sweep: every table length 2..40 x 5 origins x 5 widths x float32/float64 x xd at both ends and every node, each -3..+3 ulp (enumerated completely; the other kernel groups are sampled)'
+EXHAUSTIVE_NOTE = 'HOD passes as Python twins for every host-table size 0..13 (thorough 0..39) x particle-table size {0,1,5} x thread count 1..4; bin_kmu/bin_kppi for every mesh size 1..9 x 5 edge placements x Fourier/configuration space; TSC/CIC with particles on every face/edge/corner combination of 8 anisotropic grids; cumsum for every length 0..2 x flag combination x dtype pairing; linear_interp boundary sweep: every table length 2..40 x 5 origins x 5 widths x float32/float64 x xd at both ends and every node, each -3..+3 ulp (enumerated completely; the other kernel groups are sampled)'
+
+
+def _hod_small(H, P, nthread):
+    lrg = dict(logM_cut=12.5, logM1=13.5, sigma=0.5, alpha=1.0, kappa=0.5, ic=1.0, alpha_c=0.0, alpha_s=1.0)
+    elg = dict(p_max=0.5, Q=100.0, logM_cut=11.8, kappa=1.0, sigma=0.5, logM1=13.0, alpha=1.0, gamma=1.0, A_s=1.0, ic=1.0, alpha_c=0.0, alpha_s=1.0)
+    return dict(H=H, P=P, seed=1000 + 7 * H + P, L=2000.0, velz2kms=150.0, logm_lo=11.0, logm_hi=15.0, wmax=0.6, tracers=['LRG', 'ELG'], hod={'LRG': lrg, 'ELG': elg},
+                multis='one', rsd=bool(H % 2), origin=None, enable_ranks=False, nthread=nthread, overrides=[])
 
 
 def exhaustive(tier, shard, nshards):
+    if os.environ.get('VERIF_SHARD') is not None and _plan_for_shard() == ('hod', True):
+        # the HOD passes as Python twins: every small host/particle table size against every thread count available here
+        # (more threads than hosts, ragged thread blocks, empty tables)
+        for H in range(0, 14 if tier == 'quick' else 40):
+            for P in (0, 1, 5) if tier == 'quick' else (0, 1, 2, 5, 17):
+                for nthread in (1, 2, 3, 4):
+                    yield {'g': 'hod', 'd': _hod_small(H, P, nthread), 'twin': True}
     k = 0
     for dt in ('f4', 'f8'):
         for n in range(2, 41):
@@ -204,10 +255,10 @@ def exhaustive(tier, shard, nshards):
 
 
 def strategy(tier):
-    g = _group_for_shard()
+    g, twin = _plan_for_shard()
     if g == 'extra':
-        return _extra().map(lambda d: {'g': 'extra', 'd': d})
-    return _mod(REUSED[g]).strategy(tier).map(lambda d: {'g': g, 'd': d})
+        return _extra().map(lambda d: {'g': 'extra', 'd': d, 'twin': twin})
+    return _mod(REUSED[g]).strategy(tier).map(lambda d: {'g': g, 'd': d, 'twin': twin})
 
 
 def nontrivial(desc):
@@ -239,16 +290,20 @@ def nontrivial(desc):
 
 def classes(desc):
     g, d = desc['g'], desc['d']
+    tw = ':python-twin' if desc.get('twin') else ''
     if g != 'extra':
-        return ['group=' + g]
-    return ['group=extra:' + d['k']]
+        return ['group=' + g + tw]
+    return ['group=extra:' + d['k'] + tw]
 
 
 _stats = {'interp_probes': 0}
 
 
 def extra_evidence():
-    return dict(_stats)
+    e = dict(_stats)
+    if _twins['patched']:
+        e['python_twin_kernels'] = ' '.join(sorted(set(_twins['patched'])))
+    return e
 
 
 def _bounds(exc_or_sig):
@@ -263,7 +318,14 @@ def _guard(name, fn, *a, **kw):
             warnings.simplefilter('ignore')
             return fn(*a, **kw)
     except (IndexError, SystemError) as e:
-        raise Violation('oob:' + name, '%s raised %s under NUMBA_BOUNDSCHECK=1: %s' % (name, type(e).__name__, str(e)[:300]))
+        raise Violation('oob:' + name, '%s raised %s under NUMBA_BOUNDSCHECK=1%s: %s' % (name, type(e).__name__, ' (parallel kernels as Python twins)' if _twins['on'] else '', str(e)[:300]))
+    except Exception:
+        if _twins['on']:
+            # plain-Python execution of numba source can fail for reasons that have nothing to do with indexing (e.g. range() of a
+            # float that numba would have typed as an integer): not judged
+            _stats['python_twin_artefacts'] = _stats.get('python_twin_artefacts', 0) + 1
+            return None
+        raise
 
 
 def run_case(desc):
@@ -272,8 +334,19 @@ def run_case(desc):
     if not numba.config.BOUNDSCHECK:
         raise RuntimeError('C11 worker must run with NUMBA_BOUNDSCHECK=1')
     g, d = desc['g'], desc['d']
+    if desc['twin'] if 'twin' in desc else (os.environ.get('VERIF_SHARD') is not None and _plan_for_shard()[1]):
+        _enable_twins()
     if g != 'extra':
         m = _mod(REUSED[g])
+        nmax = int(numba.config.NUMBA_NUM_THREADS)
+        for key in ('nthread', 'nthread2'):
+            if isinstance(d.get(key), int) and d[key] > nmax:
+                # the reused generators draw thread counts up to 16; this worker has fewer numba threads and the package would refuse
+                # the call before any kernel runs (the case would then exercise nothing). Use the largest count available here: more
+                # threads than rows and ragged blocks are still reached with the small tables those generators produce.
+                d = dict(d, **{key: nmax})
+        if _twins['on'] and d.get('big'):
+            raise Reject('large block: too slow for the Python twins')
         try:
             m.run_case(d)
         except Reject:
